@@ -173,27 +173,27 @@ func relRules(c *Ctx) {
 func goxRules(c *Ctx) {
 	type row struct{ fn, op, witness string }
 	rows := []row{
-		{"(*Buffer).NewConsumer$1", "recv", "<-c.ctx.Done(): consumer.ctx is derived from Buffer.ctx and its cancel is called by consumer.Close (REL field-owned)"},
-		{"(*consumer).Close$1", "condwait", "proviso of C12: waits until uncommitted reads are resolved"},
+		{"(*Buffer).NewConsumer$go1", "recv", "<-c.ctx.Done(): consumer.ctx is derived from Buffer.ctx and its cancel is called by consumer.Close (REL field-owned)"},
+		{"(*consumer).Close$Do1", "condwait", "proviso of C12: waits until uncommitted reads are resolved"},
 		{"(*Channel).cleanup", "recv", "<-c.ctx.Done(): Channel.cancel is called by Channel.Close (REL field-owned)"},
-		{"(*Buffer).cleanup$1$1", "recv", "<-timer.C of a finite timer created just before the go statement"},
-		{"(*Buffer).Close$1", "condwait", "proviso of C12: waits until every consumer deregistered (they close themselves when Buffer.ctx is cancelled)"},
+		{"(*Buffer).cleanup$fn1$go1", "recv", "<-timer.C of a finite timer created just before the go statement"},
+		{"(*Buffer).Close$Do1", "condwait", "proviso of C12: waits until every consumer deregistered (they close themselves when Buffer.ctx is cancelled)"},
 		{"(*Buffer).cleanupLogic", "callback", "user cleaner callback"},
 		{"WaitCond", "condwait", "woken by the watcher's Broadcast when the context passed in is cancelled (C05 rules): Buffer.ctx for the cleaner, the combined context for getAsync"},
-		{"WaitCond$1", "recv", "<-ctx.Done() of the context derived in WaitCond, cancelled by WaitCond's deferred cancel"},
-		{"(*Exclusive).call$1", "condwait", "waits for running == false, which every runner clears on every path after its work returns (C09)"},
-		{"(*Exclusive).call$1", "callback", "user work function"},
-		{"(*Exclusive).call$1", "sleep", "finite sleep (the requested wait)"},
-		{"(*Exclusive).call$1", "send", "capacity-1 outcome channel, single send (C10)"},
-		{"(*Exclusive).call$1$1$1", "send", "capacity-1 outcome channel, single send (C10)"},
-		{"(*Notifier).SubscribeCancel$2", "recv", "<-ctx.Done() of a context whose cancel function is returned to the caller"},
+		{"WaitCond$go1", "recv", "<-ctx.Done() of the context derived in WaitCond, cancelled by WaitCond's deferred cancel"},
+		{"(*Exclusive).call$go1", "condwait", "waits for running == false, which every runner clears on every path after its work returns (C09)"},
+		{"(*Exclusive).call$go1", "callback", "user work function"},
+		{"(*Exclusive).call$go1", "sleep", "finite sleep (the requested wait)"},
+		{"(*Exclusive).call$go1", "send", "capacity-1 outcome channel, single send (C10)"},
+		{"(*Exclusive).call$go1$arg1$Do1", "send", "capacity-1 outcome channel, single send (C10)"},
+		{"(*Notifier).SubscribeCancel$go1", "recv", "<-ctx.Done() of a context whose cancel function is returned to the caller"},
 		{"(*Worker).do", "callback", "user function, told to stop by close(x.stop)"},
 		{"(*Worker).wait", "wgwait", "released when every holder called its done function"},
 		{"(*Worker).wait", "recv", "<-x.done, closed by do() after the function returned"},
-		{"(*Workers).worker$1", "callback", "user function"},
-		{"(*Workers).worker$1", "send", "capacity-1 reply channel, single send (C14)"},
-		{"ConflatedContext$2", "wgwait", "every wg.Add(1) is paired with a ChainAfterFunc(result, input, wg.Done) (C16)"},
-		{"LinearAttempt$1", "select", "select with a <-ctx.Done() case (C20)"},
+		{"(*Workers).worker$call1", "callback", "user function"},
+		{"(*Workers).worker$call1", "send", "capacity-1 reply channel, single send (C14)"},
+		{"ConflatedContext$go1", "wgwait", "every wg.Add(1) is paired with a ChainAfterFunc(result, input, wg.Done) (C16)"},
+		{"LinearAttempt$go1", "select", "select with a <-ctx.Done() case (C20)"},
 	}
 	seen := map[string]bool{}
 	for _, b := range c.Sim.Blocked {
@@ -219,7 +219,7 @@ func goxRules(c *Ctx) {
 	for _, r := range rows {
 		known[r.fn] = true
 	}
-	for _, extra := range []string{"(*Buffer).cleanup", "(*Buffer).getAsync$1", "(*Workers).worker"} {
+	for _, extra := range []string{"(*Buffer).cleanup", "(*Buffer).getAsync$go1", "(*Workers).worker"} {
 		known[extra] = true
 	}
 	for _, sp := range c.Sim.Spawns {
@@ -256,7 +256,7 @@ func goxRules(c *Ctx) {
 		}
 		q.add("GOX", "context cancellation closes the object", okd, "Close is deferred in the watcher", cl...)
 	}
-	recvDoneOf("(*Buffer).NewConsumer$1", "consumer.ctx")
+	recvDoneOf("(*Buffer).NewConsumer$go1", "consumer.ctx")
 	recvDoneOf("(*Channel).cleanup", "Channel.ctx")
 	if q := c.F("(*Buffer).NewConsumer"); q.ok() {
 		wcs := P.CallsTo(q.fn, "context.WithCancel")
@@ -270,17 +270,17 @@ func goxRules(c *Ctx) {
 func onceRules(c *Ctx) {
 	P := c.P
 	kinds := map[string]string{
-		"(*Buffer).Close$1":        "once",
-		"(*consumer).Close$1":      "once",
-		"(*Channel).Close$1":       "once",
-		"(*Exclusive).call$1":      "C10: single send+close, exclusive with resolve's",
-		"(*Exclusive).call$1$1$1":  "once",
-		"(*Workers).worker$1":      "single deferred close of the per-item reply channel (C14)",
-		"(*Worker).wait":           "close(stop) once per instance, in the hold in which no holder re-registered (C17)",
-		"(*Worker).do":             "close(done) once per instance, after fn returned (C17)",
-		"LinearAttempt":            "C20: closes are on mutually exclusive paths",
-		"LinearAttempt$1":          "C20: single deferred close in the goroutine",
-		"(*ChanPubSub).markBroken": "tolerated double close under recover(): misuse path only (documented in the source)",
+		"(*Buffer).Close$Do1":            "once",
+		"(*consumer).Close$Do1":          "once",
+		"(*Channel).Close$Do1":           "once",
+		"(*Exclusive).call$go1":          "C10: single send+close, exclusive with resolve's",
+		"(*Exclusive).call$go1$arg1$Do1": "once",
+		"(*Workers).worker$call1":        "single deferred close of the per-item reply channel (C14)",
+		"(*Worker).wait":                 "close(stop) once per instance, in the hold in which no holder re-registered (C17)",
+		"(*Worker).do":                   "close(done) once per instance, after fn returned (C17)",
+		"LinearAttempt":                  "C20: closes are on mutually exclusive paths",
+		"LinearAttempt$go1":              "C20: single deferred close in the goroutine",
+		"(*ChanPubSub).markBroken":       "tolerated double close under recover(): misuse path only (documented in the source)",
 	}
 	n := 0
 	for _, fn := range P.Funcs {
@@ -363,14 +363,14 @@ func closedGuards(c *Ctx) {
 			q.add("PATH", "a closed consumer fails Get before touching the buffer", ok, "getAsync dominated by the c.ctx.Err() check, reached through its nil edge", gas[0])
 		}
 	}
-	if q := c.F("(*Buffer).Close$1"); q.ok() {
+	if q := c.F("(*Buffer).Close$Do1"); q.ok() {
 		cs := P.CallsTo(q.fn, "field:Buffer.cancel")
 		ws := P.CallsTo(q.fn, "(*sync.Cond).Wait")
 		if q.need(cs, "PATH", "b.cancel()") && q.need(ws, "PATH", "wait for consumers") {
 			q.add("PATH", "Buffer.Close cancels before waiting for the consumers", P.Before(q.fn, an.Is(cs[0]), ws[0]), "cancel dominates the wait (consumers close themselves on cancellation)", cs[0])
 		}
 	}
-	if q := c.F("(*consumer).Close$1"); q.ok() {
+	if q := c.F("(*consumer).Close$Do1"); q.ok() {
 		var dClose, dDelete ssa.Instruction
 		for _, d := range an.AllInstrs(q.fn, func(in ssa.Instruction) bool { _, ok := in.(*ssa.Defer); return ok }) {
 			switch P.CalleeName(an.CallCommonOf(d)) {
@@ -389,7 +389,7 @@ func closedGuards(c *Ctx) {
 		}
 	}
 	// every Close body closes its done channel on every exit
-	for _, x := range [][2]string{{"(*Buffer).Close$1", "Buffer.done"}, {"(*consumer).Close$1", "consumer.done"}, {"(*Channel).Close$1", "Channel.done"}} {
+	for _, x := range [][2]string{{"(*Buffer).Close$Do1", "Buffer.done"}, {"(*consumer).Close$Do1", "consumer.done"}, {"(*Channel).Close$Do1", "Channel.done"}} {
 		q := c.F(x[0])
 		if !q.ok() {
 			continue
